@@ -184,6 +184,13 @@ fn enum_laws(f: Fmt, nd: &ND) -> Option<String> {
     }
     // kind is preserved by format -> parse in both parsers
     let text = f.e().format_narsese(&v);
+    // ... also when the text and prefixes of it (the same buffer cut before its punctuation, truth, ...)
+    // are handed to one parse_multi call as slices
+    if let Some(rows) = (if text.len() % 3 == 0 { prefix_slice_batch(f, &text) } else { None }) {
+        if let Some((s, b, a)) = rows.into_iter().find(|(_, b, a)| b != a) {
+            return Some(format!("{:?} passed as a slice of the buffer {:?} in one parse_multi call with other prefixes of it = {} but alone {}", s, text, b, a));
+        }
+    }
     match enum_parse(f, &text) {
         Out::Ok(c) => {
             if kind_of_canon(&c) != kind {
